@@ -49,6 +49,7 @@ func (readingLogger4) Printf(format string, v ...interface{}) {}
 type api4 struct {
 	c    *nclient4.Client
 	dest *net.UDPAddr
+	mt   int
 }
 
 const idOpt4 = 224
@@ -70,7 +71,7 @@ func newAPI4(s *Sim, conn net.PacketConn) *api4 {
 		panic(err)
 	}
 	setBufCap(c, s.cfg.BufCap)
-	return &api4{c: c, dest: dest}
+	return &api4{c: c, dest: dest, mt: s.cfg.MsgType}
 }
 
 func xid4(x int) dhcpv4.TransactionID { return dhcpv4.TransactionID{0xab, byte(x >> 16), byte(x >> 8), byte(x)} }
@@ -101,6 +102,9 @@ func (a *api4) Prepare(ctx context.Context, xid int, verdict func(int, bool) boo
 		dhcpv4.WithGeneric(dhcpv4.OptionClasslessStaticRoute, []byte{20, 10, 1, 31, 10, 0, 0, 1}))
 	if err != nil {
 		panic(err)
+	}
+	if a.mt != 0 {
+		req.UpdateOption(dhcpv4.OptMessageType(dhcpv4.MessageType(a.mt))) // the schedule is the same whatever is being sent
 	}
 	onReq(req.ToBytes())
 	var m nclient4.Matcher
@@ -195,6 +199,7 @@ func padTo4(p *dhcpv4.DHCPv4, n int) {
 type api6 struct {
 	c    *nclient6.Client
 	dest *net.UDPAddr
+	mt   int
 }
 
 const idOpt6 = 65001
@@ -216,7 +221,7 @@ func newAPI6(s *Sim, conn net.PacketConn) *api6 {
 		panic(err)
 	}
 	setBufCap(c, s.cfg.BufCap)
-	return &api6{c: c, dest: dest}
+	return &api6{c: c, dest: dest, mt: s.cfg.MsgType}
 }
 
 func xid6(x int) dhcpv6.TransactionID { return dhcpv6.TransactionID{byte(x >> 16), byte(x >> 8), byte(x)} }
@@ -246,6 +251,9 @@ func (a *api6) Prepare(ctx context.Context, xid int, verdict func(int, bool) boo
 		panic(err)
 	}
 	req.TransactionID = xid6(xid)
+	if a.mt != 0 {
+		req.MessageType = dhcpv6.MessageType(a.mt) // the schedule is the same whatever is being sent
+	}
 	req.AddOption(&dhcpv6.OptFQDN{DomainName: &rfc1035label.Labels{Labels: []string{"host.example.org"}}})
 	req.AddOption(dhcpv6.OptRequestedOption(dhcpv6.OptionSNTPServerList, dhcpv6.OptionDomainSearchList))
 	onReq(req.ToBytes())
